@@ -5,6 +5,8 @@ package main
 import (
 	"encoding/json"
 	"fmt"
+	"io"
+	"log"
 	"os"
 	"runtime"
 	"runtime/debug"
@@ -41,6 +43,7 @@ func main() {
 		os.Exit(2)
 	}
 	debug.SetGCPercent(400)
+	log.SetOutput(io.Discard) // panicparse logs "problematic ... URL" lines
 	id := os.Args[1]
 	if id == "worker" {
 		workerMain(os.Args[2:])
